@@ -1,1 +1,119 @@
-def main : IO Unit := pure ()
+import NfcVerif.Model.Term
+open NfcVerif NfcVerif.Term
+
+def kv (toks : List String) (k : String) : String :=
+  match toks.find? (fun t => t.startsWith (k ++ "=")) with
+  | some t => (t.drop (k.length + 1)).toString
+  | none => ""
+
+def nat (toks : List String) (k : String) : Nat := (kv toks k).toNat?.getD 0
+def flag (toks : List String) (k : String) : Bool := kv toks k == "1"
+
+def parseKind : String → Kind | "raw" => .raw | "ldl" => .ldl | _ => .dlc
+def parseSt : String → St
+  | "SHUTDOWN" => .shutdown | "CLOSED" => .closed | "LISTEN" => .listen | "CONNECT" => .connect
+  | "ESTABLISHED" => .established | "DISCONNECT" => .disconnect | _ => .closeWait
+def parsePdu : String → Option PduK
+  | "I" => some .i | "DISC" => some .disc | "CONNECT" => some .connect | "CC" => some .cc | "DM" => some .dm
+  | "UI" => some .ui | "RR" => some .rr | "FRMR" => some .frmr | _ => none
+def parseQ (s : String) : List PduK := (s.splitOn ".").filterMap parsePdu
+def parseEv : String → Ev | "recv" => .recv | "send" => .send | "acks" => .acks | _ => .bogus
+def parseCall (s : String) : Call :=
+  match s.splitOn ":" with
+  | ["send", d, n] => .send (d == "1") (n.toNat?.getD 0)
+  | ["recv"] => .recv | ["accept"] => .accept | ["connect"] => .connect | ["listen"] => .listen
+  | ["close"] => .close | ["bind"] => .bind | ["resolve"] => .resolve
+  | ["poll", e, t] => .poll (parseEv e) (t == "1")
+  | _ => .bind
+def parseAct (s : String) : Act :=
+  if s == "T" then .term else if s == "S" then .spurious else if s == "A" then .ack
+  else if s == "D" then .dequeue else if s == "R" then .resolved
+  else if s.startsWith "Q" then (match parsePdu (s.drop 1).toString with | some k => .queue k | none => .none)
+  else .none
+def showAct : Act → Bool → String
+  | .none, w => if w then "N" else "-" | .term, _ => "T" | .spurious, _ => "S" | .ack, _ => "A" | .dequeue, _ => "D"
+  | .resolved, _ => "R"
+  | .queue k, _ => "Q" ++ showPdu k
+where showPdu : PduK → String
+  | .i => "I" | .disc => "DISC" | .connect => "CONNECT" | .cc => "CC" | .dm => "DM" | .ui => "UI" | .rr => "RR" | .frmr => "FRMR"
+
+def cvName : Cv → String
+  | .sendReady => "send_ready" | .recvReady => "recv_ready" | .acksReady => "acks_ready"
+  | .sendToken => "send_token" | .resp => "resp"
+def stName : St → String
+  | .shutdown => "SHUTDOWN" | .closed => "CLOSED" | .listen => "LISTEN" | .connect => "CONNECT"
+  | .established => "ESTABLISHED" | .disconnect => "DISCONNECT" | .closeWait => "CLOSE_WAIT"
+def showQ (q : List PduK) : String := ".".intercalate (q.map showAct.showPdu)
+def showVal : Val → String
+  | .none => "none" | .bool true => "true" | .bool false => "false" | .data => "data" | .sock => "sock" | .nat n => s!"n{n}"
+def b01 (b : Bool) : String := if b then "1" else "0"
+def showWorld (w : World) : String :=
+  s!"{stName w.s.st}:{b01 w.s.bound}:{showQ w.s.recvQ}:{showQ w.s.sendQ}:{w.s.recvBuf}:{w.s.acks}:{w.s.sendCnt}:{w.s.recvConfs}"
+
+def evName (c : Call) (p : Pt) (a : Act) : String :=
+  match p with
+  | .bindAcq | .llcAcq => "Ll:" ++ showAct a false
+  | .sockAcq => "Ls:" ++ showAct a false
+  | _ => "W" ++ cvName p.cv ++ (if callTimeout c then ":t:" else ":n:") ++ showAct a true
+
+/-- `run` of the model with the list of scheduling events -/
+def trace (c : Call) : Nat → Step → List Act → List String → String
+  | _, .done r w, _, ev => ",".intercalate ev.reverse ++ "|" ++ showPy showVal r ++ "|" ++ showWorld w
+  | 0, .at _ _, _, ev => ",".intercalate ev.reverse ++ "|fuel|"
+  | n + 1, .at p w, script, ev =>
+    let a := script.headD .none
+    let (w1, notified) := applyAct a w
+    let ev1 := evName c p a :: ev
+    if p.isWait then
+      (if notified.contains p.cv || callTimeout c then trace c n (exec c p w1) script.tail ev1
+       else ",".intercalate ev1.reverse ++ "|hang " ++ cvName p.cv ++ "|" ++ showWorld w1)
+    else trace c n (exec c p w1) script.tail ev1
+
+def parseWorld (t : List String) : World :=
+  { s := { kind := parseKind (kv t "k"), st := parseSt (kv t "st"), bound := flag t "b", recvQ := parseQ (kv t "rq"),
+           sendQ := parseQ (kv t "sq"), sendBuf := nat t "sb", recvBuf := nat t "rb", sendMiu := nat t "sm",
+           sendWin := nat t "sw", sendCnt := nat t "sc", sendAck := nat t "sa", acks := nat t "ak",
+           recvConfs := nat t "rc", recvWin := nat t "rw" },
+    registered := flag t "reg", sapAlive := flag t "alive", sapOthers := flag t "oth", terminated := flag t "term",
+    sdAlive := flag t "sd", resolved := flag t "res", viaSap := false }
+
+def causeOf : String → Option Cause
+  | "remote-disc" => some .remoteDisc | "timeout" | "broken-link" | "none" | "malformed" => some .exchangeNone
+  | "local-terminate" => some .terminateCb | "keyboard-interrupt" => some .keyboardInterrupt
+  | "ioerror" | "ioerror-persistent" => some .ioError | "key-agreement" => some .keyAgreementError
+  | "decryption" => some .decryptionError | "encryption" => some .encryptionError
+  | "runtime-error" => some .otherException | _ => none
+
+def leaveName : Leave → String
+  | .returns => "returns" | .raisesKeyboardInterrupt => "KeyboardInterrupt" | .raisesSystemExit => "SystemExit"
+  | .reraises => "reraises"
+def connectName : ConnectEnd → String
+  | .returns => "returns" | .raisesSystemExit => "SystemExit" | .reraises => "reraises"
+
+def sptName : SPt → String
+  | .listenAccept => "accept" | .servePoll => "poll" | .serveRecv => "recv" | .serveSend => "send"
+  | .finallyClose => "close" | .exited => "exited"
+
+def handle (line : String) : String :=
+  let t := line.splitOn " "
+  match t.head? with
+  | some "run" =>
+    let w0 := parseWorld t
+    let w := if flag t "pre" then (terminate w0).1 else w0
+    let c := parseCall (kv t "call")
+    let script := ((kv t "script").splitOn ".").filter (· ≠ "") |>.map parseAct
+    trace c 12 (start c w) script []
+  | some "loop" =>
+    let role := if kv t "role" == "target" then Role.target else Role.initiator
+    (match causeOf (kv t "cause") with
+     | some c => let e := loopEnd role c
+                 s!"terminate={b01 e.terminateCalled} leave={leaveName e.leave} connect={connectName (connectEnd role c)} shutdown={b01 (terminateShutsDown (kv t "cause" == "ioerror-persistent"))}"
+     | none => "bad-cause")
+  | some "service" =>
+    let w := (terminate (parseWorld t)).1
+    let p := match kv t "at" with
+      | "accept" => SPt.listenAccept | "poll" => .servePoll | "recv" => .serveRecv | "send" => .serveSend | _ => .finallyClose
+    sptName (serviceRun w 6 p)
+  | _ => "bad-op"
+
+def main : IO Unit := runDriver handle
